@@ -21,6 +21,8 @@ pub struct LiveNode {
     pub ws: String,
     pub loop_dead: Arc<AtomicBool>,
     pub repl_msgs: Arc<AtomicU64>,
+    /// what the node's own threads handed to its supervisor (the harness takes the messages instead of a supervisor)
+    pub sup_log: Arc<std::sync::Mutex<Vec<String>>>,
     stop: Arc<AtomicBool>,
 }
 
@@ -79,6 +81,8 @@ impl LiveNode {
             let stop = Arc::new(AtomicBool::new(false));
             let loop_dead = Arc::new(AtomicBool::new(false));
             let repl_msgs = Arc::new(AtomicU64::new(0));
+            let sup_log = Arc::new(std::sync::Mutex::new(Vec::new()));
+            let sup2 = sup_log.clone();
             let (stop2, dead2, msgs2) = (stop.clone(), loop_dead.clone(), repl_msgs.clone());
             // the replication loop runs on its own thread, as in production
             std::thread::spawn(move || {
@@ -96,11 +100,13 @@ impl LiveNode {
                             break;
                         }
                     }
-                    while node.take_sup().is_some() {}
+                    while let Some(m) = node.take_sup() {
+                        sup2.lock().unwrap().push(m);
+                    }
                 }
             });
             if wait_listening(&tcp) && wait_listening(&http) && wait_listening(&ws) {
-                return Some(LiveNode { dbs, tcp, http, ws, loop_dead, repl_msgs, stop });
+                return Some(LiveNode { dbs, tcp, http, ws, loop_dead, repl_msgs, sup_log, stop });
             }
             stop.store(true, Ordering::Relaxed);
         }
